@@ -1,4 +1,5 @@
 import OntVerif.Proofs.Recover
+import OntVerif.Proofs.RecoverCycles
 import OntVerif.Gen.Recover
 /-!
 # C01 — the ledger recovers from a crash at any point of a block commit to a state identical to an uncrashed run
@@ -58,6 +59,36 @@ theorem C01_recover_of_bounds (lo hi arg : Nat) (hlo : lo + arg = 1) (hhi : hi +
     simpa [commitStep, hfull] using this
 
 
+/-! ### Crashes during recovery (any number of crash / reopen cycles) -/
+
+/-- **The property with interrupted recoveries.** After the crash in the commit of `b` (as in `C01_statement`) the node is
+restarted any number of times and dies again DURING the reopen, each time after `c.1` of the recovery iteration's commits
+(`rc` order) and `c.2` bytes of its hash-file re-append became durable (complete when the state store committed); the
+reopen that finally runs to completion yields a `Recovered` ledger: height old or new, state identical to the uncrashed
+ledger of that height, following blocks treated identically. `cycles = []` is `C01_statement`. -/
+def C01_statement_cycles (lo hi arg : Nat) (rc order : List Nat) : Prop :=
+  ∀ (β σ ε H : Type) [DecidableEq H] (S : Sem β σ ε H) (L0 : Ledger β σ ε H), Consistent L0 →
+  ∀ (chain : List β) (b : β) (L1 : Ledger β σ ε H) (k t : Nat) (cycles : List (Nat × Nat)),
+    submit S order (run S order L0 chain) b = .ok L1 → (run S order L0 chain).height < S.height b →
+    k ≤ 3 → (k = 3 → ∀ F, fill S (run S order L0 chain) b = some F → F.data.length ≤ t) →
+    (∀ c ∈ cycles, 2 ∈ rc.take c.1 → ∀ F, fill S (run S order L0 chain) b = some F → F.data.length ≤ c.2) →
+    ∃ d L', crashDisk S order (run S order L0 chain) b k t = some d ∧
+      reopen S lo hi arg rc (cycles.foldl (fun d c => reopenCrash S lo hi arg rc d c.1 c.2) d) = .ok L' ∧
+      Recovered S lo hi arg rc order (run S order L0 chain) L1 L'
+
+theorem C01_recover_twice_of_bounds (lo hi arg : Nat) (hlo : lo + arg = 1) (hhi : hi + arg = 1) :
+    C01_statement_cycles lo hi arg [1, 2] [0, 1, 2] := by
+  intro β σ ε H _ S L0 hinv0 chain b L1 k t cycles hsub hnew hk hsync hcs
+  have hinv := run_inv S chain L0 hinv0
+  generalize run S [0, 1, 2] L0 chain = L at hsub hnew hsync hcs hinv
+  obtain ⟨F, hF, hh, rfl⟩ := submit_ok_new S L _ b hsub hnew
+  unfold crashDisk
+  rw [hF]
+  have h0 := stage_first S L b F hinv hF k t hk (fun h3 => hsync h3 F hF)
+  have hc := stage_cycles S lo hi arg hlo hhi L b F hinv hF hh cycles _ h0 (fun c hc h2 => hcs c hc h2 F hF)
+  obtain ⟨L', hr, hrec⟩ := stage_reopen S lo hi arg hlo hhi L b F hinv hF hh _ hc
+  exact ⟨_, L', rfl, hr, hrec⟩
+
 /-! ### The as-shipped loop (`for i := stateHeight; i < blockHeight; i++`, block `i`) does not recover
 
 Witness (toy semantics, genesis + one block, crash after the block-store commit): the reopened ledger reports height 1
@@ -114,6 +145,16 @@ theorem C01_recover :
   rw [h1, h2]
   exact C01_recover_of_bounds _ _ _ (by decide) (by decide)
 
+/-- **C01 with any finite sequence of crash / reopen cycles, for the loop, commit order and recovery commits extracted
+from the source on this run.** -/
+theorem C01_recover_twice :
+    C01_statement_cycles OntVerif.Gen.Recover.loopLo OntVerif.Gen.Recover.loopHi OntVerif.Gen.Recover.blockArg
+      OntVerif.Gen.Recover.recoverCommits OntVerif.Gen.Recover.commitOrder := by
+  have h1 : OntVerif.Gen.Recover.recoverCommits = [1, 2] := by decide
+  have h2 : OntVerif.Gen.Recover.commitOrder = [0, 1, 2] := by decide
+  rw [h1, h2]
+  exact C01_recover_twice_of_bounds _ _ _ (by decide) (by decide)
+
 /-! ### Non-vacuity: the hypotheses hold on a concrete chain, and the crash states are genuinely intermediate -/
 section
 open Toy
@@ -141,6 +182,18 @@ example :
     ∃ d L', crashDisk sem [0, 1, 2] L b 0 13 = some d ∧ reopen sem 1 1 0 [1, 2] d = .ok L' ∧
       L'.height = 0 ∧ L'.disk.file.length = L.disk.file.length + 13 ∧ L' ≠ L :=
   ⟨_, _, rfl, rfl, by decide, by decide, by decide⟩
+
+/- two interrupted recoveries: the first dies after re-appending 7 bytes of the hash file, the second after the event
+store committed; the directories are three different intermediate states, and the third reopen completes at height 1 -/
+set_option maxRecDepth 10000 in
+example :
+    ∃ d0 L1, crashDisk sem [0, 1, 2] (genesisLedger [0, 1, 2]) (mkBlock (genesisLedger [0, 1, 2]) 5) 1 0 = some d0 ∧
+      submit sem [0, 1, 2] (genesisLedger [0, 1, 2]) (mkBlock (genesisLedger [0, 1, 2]) 5) = .ok L1 ∧
+      (reopenCrash sem 1 1 0 [1, 2] d0 0 7).file.length = d0.file.length + 7 ∧
+      (reopenCrash sem 1 1 0 [1, 2] (reopenCrash sem 1 1 0 [1, 2] d0 0 7) 1 64).evt = L1.disk.evt ∧
+      (reopenCrash sem 1 1 0 [1, 2] (reopenCrash sem 1 1 0 [1, 2] d0 0 7) 1 64).st ≠ L1.disk.st ∧
+      reopen sem 1 1 0 [1, 2] (reopenCrash sem 1 1 0 [1, 2] (reopenCrash sem 1 1 0 [1, 2] d0 0 7) 1 64) = .ok L1 :=
+  ⟨_, _, rfl, rfl, by decide, by decide, by decide, rfl⟩
 end
 
 end OntVerif.Props.C01
